@@ -6,8 +6,7 @@ EPV/Lemmas/Lexical*.lean.  Theorems over the generated tables are in EPV/Props/C
 Reading guide
 * `Lex.collapse`        : `collapse_white_spaces` of the implementation (Python regex `[^\S\xa0]+` and strip)
 * `XSD.wsCollapse`      : whiteSpace = collapse of XSD 1.1 Part 2 §4.3.6
-* `noPyOnlyWhite s`     : no character of `s` is white for Python's regex but not for XSD
-                          (the trigger of known finding F10w is its negation)
+* `collapse_eq_wsCollapse_all` : after fix-c10-2 the two coincide on every string (F10w is fixed)
 * `Lex.intCtor b s`     : `T(s)` for a class of the integer family with bounds `b`
 * `XSD.integerLex` etc. : the lexical spaces, by the grammar productions of the recommendation
 -/
@@ -37,40 +36,36 @@ theorem int_ctor_iff_lexical (b : Lex.Bounds) (s : List Char) :
   rw [matchInteger_eq _ (collapse_no_nl s), intOfLex_eq, bounds_ok_iff_facets]
   cases XSD.integerLex (Lex.collapse s) <;> simp
 
-/-- PARTIAL (known finding F10w): with the XSD definition of white space the statement holds for strings
-without Python-only white characters.  Full statement (false, see `int_ctor_fails_unicode_space`):
-`∀ s, Lex.intCtor b s = specIntCtor b.lo (b.hi.map (· - 1)) s`. -/
-theorem int_ctor_iff_lexical_partial (b : Lex.Bounds) (s : List Char) (h : noPyOnlyWhite s = true) :
+/-- **ctor_iff_lexical (integer family) with the XSD definition of white space** — full strength since
+fix-c10-2 (F10w fixed): for every string and bounds pair the constructor does exactly what XSD prescribes. -/
+theorem int_ctor_iff_lexical_spec (b : Lex.Bounds) (s : List Char) :
     Lex.intCtor b s = specIntCtor b.lo (b.hi.map (· - 1)) s := by
-  rw [int_ctor_iff_lexical, collapse_eq_wsCollapse s h]; rfl
+  rw [int_ctor_iff_lexical, collapse_eq_wsCollapse_all s]; rfl
 
-/-- F10w witness: U+2003 (EM SPACE) after the digits is collapsed away by the implementation, but is
-not XSD white space: `xs:integer('1 ')` = 1 although the literal is not in the lexical space. -/
-theorem int_ctor_fails_unicode_space :
-    noPyOnlyWhite ['1', ' '] = false ∧
-    Lex.intCtor ⟨none, none⟩ ['1', ' '] = .ok 1 ∧
-    specIntCtor none none ['1', ' '] = .error .value := by decide
+/-- U+2003 (EM SPACE) is not white space any more: the literal is rejected (the F10w witness of phase 1) -/
+theorem int_ctor_rejects_unicode_space :
+    Lex.intCtor ⟨none, none⟩ ['1', Char.ofNat 8195] = .error .value ∧
+    specIntCtor none none ['1', Char.ofNat 8195] = .error .value ∧
+    Lex.intCtor ⟨none, none⟩ ['1', '\t'] = .ok 1 := by
+  decide
 
-/-- the hypotheses are satisfiable on a non-trivial input (test on literals) -/
-example : noPyOnlyWhite " \t+0127\n".toList = true ∧
+/-- non-trivial inputs (test on literals) -/
+example :
     Lex.intCtor ⟨some (-128), some 128⟩ " \t+0127\n".toList = .ok 127 ∧
     Lex.intCtor ⟨some (-128), some 128⟩ "128".toList = .error .value := by decide
 
-/-- PARTIAL (known finding F10v): `T.is_valid(s)` agrees with the constructor on strings that are already
-in whitespace-normal form (`is_valid` matches the pattern on the raw string, the constructor collapses
-first).  Full statement (false, see `int_is_valid_fails_padded`): `∀ s, intIsValid b s = (intCtor b s).toBool`. -/
-theorem int_is_valid_iff_ctor_partial (b : Lex.Bounds) (s : List Char) (hn : Lex.collapse s = s) :
+/-- **is_valid_iff_ctor (integer family)** — full strength since fix-c10-2 (F10v fixed): `T.is_valid(s)` and the
+constructor agree on every string (both collapse, match the pattern, check the bounds). -/
+theorem int_is_valid_iff_ctor (b : Lex.Bounds) (s : List Char) :
     Lex.intIsValid b s = (Lex.intCtor b s).toBool := by
   unfold Lex.intIsValid Lex.intCtor
-  simp only [hn]
-  cases Lex.matchInteger s <;> simp [Except.toBool]
+  simp only
+  cases Lex.matchInteger (Lex.collapse s) <;> simp [Except.toBool]
   split <;> simp_all
 
-/-- F10v witness: `Integer.is_valid(' 12 ')` is False while `Integer(' 12 ')` succeeds; and the `$` of
-the pattern lets `is_valid('12\n')` be True on a string that is not whitespace-normal. -/
-theorem int_is_valid_fails_padded :
-    Lex.intIsValid ⟨none, none⟩ " 12 ".toList = false ∧ (Lex.intCtor ⟨none, none⟩ " 12 ".toList).toBool = true ∧
-    Lex.collapse " 12 ".toList ≠ " 12 ".toList ∧ Lex.intIsValid ⟨none, none⟩ "12\n".toList = true := by decide
+/-- the F10v witnesses of phase 1 now agree (tests on literals) -/
+example : Lex.intIsValid ⟨none, none⟩ " 12 ".toList = true ∧ Lex.intIsValid ⟨none, none⟩ "12\n".toList = true ∧
+    (Lex.intCtor ⟨none, none⟩ "12\n".toList).toBool = true ∧ Lex.intIsValid ⟨none, none⟩ "1 2".toList = false := by decide
 
 /-- bounds are enforced by `is_valid` too (after the fix of F10i): test on literals -/
 example : Lex.intIsValid ⟨some (-128), some 128⟩ "128".toList = false ∧
@@ -110,23 +105,17 @@ theorem dec_ctor_value (s : List Char) (d : Lex.PyDec) (h : Lex.decCtor s = .ok 
     exact decOfLex_val _ hl
   · cases h
 
-/-- PARTIAL (F10w): the same with XSD white space, for strings without Python-only white characters. -/
-theorem dec_ctor_iff_lexical_partial (s : List Char) (h : noPyOnlyWhite s = true) :
+/-- the same with the XSD definition of white space (full strength since fix-c10-2) -/
+theorem dec_ctor_iff_lexical_spec (s : List Char) :
     (Lex.decCtor s).toBool = XSD.decimalLex (XSD.wsCollapse s) := by
-  rw [dec_ctor_iff_lexical, collapse_eq_wsCollapse s h]
+  rw [dec_ctor_iff_lexical, collapse_eq_wsCollapse_all s]
   cases XSD.decimalLex (XSD.wsCollapse s) <;> rfl
 
-/-- F10w witness for xs:decimal (U+3000 IDEOGRAPHIC SPACE) -/
-theorem dec_ctor_fails_unicode_space :
-    (Lex.decCtor ['　', '1', '.', '5']).toBool = true ∧ XSD.decimalLex (XSD.wsCollapse ['　', '1', '.', '5']) = false := by
-  decide
-
-/-- PARTIAL (F10v): `is_valid` agrees with the constructor on whitespace-normal strings. -/
-theorem dec_is_valid_iff_ctor_partial (s : List Char) (hn : Lex.collapse s = s) :
-    Lex.decIsValid s = (Lex.decCtor s).toBool := by
+/-- **is_valid_iff_ctor (xs:decimal)**, every string -/
+theorem dec_is_valid_iff_ctor (s : List Char) : Lex.decIsValid s = (Lex.decCtor s).toBool := by
   unfold Lex.decIsValid Lex.decCtor
-  simp only [hn]
-  cases Lex.matchDecimal s <;> rfl
+  simp only
+  cases Lex.matchDecimal (Lex.collapse s) <;> rfl
 
 /-- the fixes of F10d are visible in the model: inner spaces are not removed (tests on literals) -/
 example : (Lex.decCtor "1 2".toList).toBool = false ∧ (Lex.decCtor " +.50\t".toList).toBool = true ∧
@@ -197,10 +186,10 @@ theorem dbl_ctor_iff_lexical (v : Lex.Ver) (s : List Char) :
   simp only [hs, Bool.or_false]
   simp [h1, h2, h3, h4]
 
-/-- PARTIAL (F10w): with XSD white space. -/
-theorem dbl_ctor_iff_lexical_partial (v : Lex.Ver) (s : List Char) (h : noPyOnlyWhite s = true) :
+/-- with the XSD definition of white space (full strength since fix-c10-2) -/
+theorem dbl_ctor_iff_lexical_spec (v : Lex.Ver) (s : List Char) :
     (Lex.dblCtor v s).toBool = XSD.doubleLex (v != .v10) (XSD.wsCollapse s) := by
-  rw [dbl_ctor_iff_lexical, collapse_eq_wsCollapse s h]
+  rw [dbl_ctor_iff_lexical, collapse_eq_wsCollapse_all s]
   cases XSD.doubleLex (v != .v10) (XSD.wsCollapse s) <;> rfl
 
 /-- the pattern of `DoubleProxy` / `Float` (after the fix of F10a) is the XSD 1.1 lexical space on
@@ -247,17 +236,15 @@ theorem dbl_pattern_eq_lexical (s : List Char) (h : '\n' ∉ s) :
         · exact h2 heq
     · rfl
 
-/-- … hence PARTIAL (F10v): `is_valid` agrees with the (version-less) constructor on whitespace-normal
-strings.  (`is_valid` knows no XSD version: under XSD 1.0 it still accepts '+INF'.) -/
-theorem dbl_is_valid_iff_ctor_partial (s : List Char) (hn : Lex.collapse s = s) :
-    Lex.dblIsValid s = (Lex.dblCtor .none s).toBool := by
-  have hnl : '\n' ∉ s := by rw [← hn]; exact collapse_no_nl s
-  rw [dbl_ctor_iff_lexical, hn]
+/-- … hence **is_valid_iff_ctor (xs:double, xs:float)** on every string, for the version-less constructor.
+(`is_valid` knows no XSD version: under XSD 1.0 it still accepts '+INF'.) -/
+theorem dbl_is_valid_iff_ctor (s : List Char) : Lex.dblIsValid s = (Lex.dblCtor .none s).toBool := by
+  rw [dbl_ctor_iff_lexical]
   unfold Lex.dblIsValid
-  rw [dbl_pattern_eq_lexical s hnl]
+  rw [dbl_pattern_eq_lexical _ (collapse_no_nl s)]
   have : (Lex.Ver.none != Lex.Ver.v10) = true := by decide
   rw [this]
-  cases XSD.doubleLex true s <;> rfl
+  cases XSD.doubleLex true (Lex.collapse s) <;> rfl
 
 /-- version dependence and the fixed defects F10a / F10e (tests on literals) -/
 example : (Lex.dblCtor .v10 "+INF".toList).toBool = false ∧ Lex.dblCtor .v11 "+INF".toList = .ok .pinf ∧
@@ -273,19 +260,17 @@ theorem bool_ctor_iff_lexical (s : List Char) :
       (if XSD.booleanLex (Lex.collapse s) then .ok (XSD.booleanVal (Lex.collapse s)) else .error .value) :=
   boolCtor_eq s
 
-/-- PARTIAL (F10w) -/
-theorem bool_ctor_iff_lexical_partial (s : List Char) (h : noPyOnlyWhite s = true) :
+/-- with the XSD definition of white space (full strength since fix-c10-2) -/
+theorem bool_ctor_iff_lexical_spec (s : List Char) :
     Lex.boolCtor s =
       (if XSD.booleanLex (XSD.wsCollapse s) then .ok (XSD.booleanVal (XSD.wsCollapse s)) else .error .value) := by
-  rw [boolCtor_eq, collapse_eq_wsCollapse s h]
+  rw [boolCtor_eq, collapse_eq_wsCollapse_all s]
 
-/-- PARTIAL (F10v) -/
-theorem bool_is_valid_iff_ctor_partial (s : List Char) (hn : Lex.collapse s = s) :
-    Lex.boolIsValid s = (Lex.boolCtor s).toBool := by
-  have hnl : '\n' ∉ s := by rw [← hn]; exact collapse_no_nl s
+/-- **is_valid_iff_ctor (xs:boolean)**, every string -/
+theorem bool_is_valid_iff_ctor (s : List Char) : Lex.boolIsValid s = (Lex.boolCtor s).toBool := by
   unfold Lex.boolIsValid
-  rw [matchBoolean_eq s hnl, boolCtor_eq, hn]
-  cases XSD.booleanLex s <;> rfl
+  rw [matchBoolean_eq _ (collapse_no_nl s), boolCtor_eq]
+  cases XSD.booleanLex (Lex.collapse s) <;> rfl
 
 /-- **canon_fixed_point (boolean)** -/
 theorem bool_canon_fixed_point (b : Bool) :
@@ -305,11 +290,24 @@ theorem hex_ctor_iff_lexical (s : List Char) :
     Lex.hexCtor s = if XSD.hexLex (Lex.collapse s) then .ok (Lex.collapse s) else .error .value :=
   hexCtor_eq s
 
-/-- PARTIAL (F10w) -/
-theorem hex_ctor_iff_lexical_partial (s : List Char) (h : noPyOnlyWhite s = true) :
+/-- with the XSD definition of white space (full strength since fix-c10-2) -/
+theorem hex_ctor_iff_lexical_spec (s : List Char) :
     (Lex.hexCtor s).toBool = XSD.hexLex (XSD.wsCollapse s) := by
-  rw [hexCtor_eq, collapse_eq_wsCollapse s h]
+  rw [hexCtor_eq, collapse_eq_wsCollapse_all s]
   cases XSD.hexLex (XSD.wsCollapse s) <;> rfl
+
+/-- PARTIAL: `HexBinary.is_valid` trims with `strip(' \\t\\n\\r')` instead of collapsing; proved equal to the
+constructor on whitespace-normal strings only.  (No counter-example is known: inner white space fails the
+pattern either way; the general statement needs a lemma relating `strip` and `collapse` that is not proved.) -/
+theorem hex_is_valid_iff_ctor_partial (s : List Char) (hn : Lex.collapse s = s) :
+    Lex.hexIsValid s = (Lex.hexCtor s).toBool := by
+  have hnl : '\n' ∉ s := by rw [← hn]; exact collapse_no_nl s
+  have hs : Lex.pyStrip s = s := by
+    have := pyStrip_collapse s
+    rw [hn] at this; exact this
+  unfold Lex.hexIsValid
+  rw [hs, matchHex_eq s hnl, hexCtor_eq, hn]
+  cases XSD.hexLex s <;> rfl
 
 /-- **ctor_iff_lexical (xs:base64Binary)**: the constructor succeeds exactly when the collapsed string is in
 the lexical space of XSD 1.1 §3.3.16 (quads of Base64 characters, optional single spaces, `=` padding only
@@ -319,24 +317,24 @@ theorem base64_ctor_iff_lexical (s : List Char) :
       if XSD.base64Lex (Lex.collapse s) then .ok ((Lex.collapse s).filter (· != ' ')) else .error .value :=
   b64Ctor_eq s
 
-/-- PARTIAL (F10w) -/
-theorem base64_ctor_iff_lexical_partial (s : List Char) (h : noPyOnlyWhite s = true) :
+/-- with the XSD definition of white space (full strength since fix-c10-2) -/
+theorem base64_ctor_iff_lexical_spec (s : List Char) :
     (Lex.b64Ctor s).toBool = XSD.base64Lex (XSD.wsCollapse s) := by
-  rw [b64Ctor_eq, collapse_eq_wsCollapse s h]
+  rw [b64Ctor_eq, collapse_eq_wsCollapse_all s]
   cases XSD.base64Lex (XSD.wsCollapse s) <;> rfl
 
-/-- `is_valid` of the binary types does its own normalisation (strip / space removal): on whitespace-normal
-strings it agrees with the constructor.  PARTIAL (F10v). -/
-theorem base64_is_valid_iff_ctor_partial (s : List Char) (hn : Lex.collapse s = s) :
-    Lex.b64IsValid s = (Lex.b64Ctor s).toBool := by
-  unfold Lex.b64Ctor
-  simp only [hn]
-  cases Lex.b64IsValid s <;> rfl
+/-- **is_valid_iff_ctor (xs:base64Binary)**, every string -/
+theorem base64_is_valid_iff_ctor (s : List Char) : Lex.b64IsValid s = (Lex.b64Ctor s).toBool := by
+  rw [b64Ctor_eq]
+  unfold Lex.b64IsValid
+  rw [matchB64_eq, ← base64Lex_eq]
+  cases XSD.base64Lex (Lex.collapse s) <;> rfl
 
 /-- tests on literals: padding rules -/
 example : (Lex.b64Ctor "AA= =".toList).toBool = true ∧ (Lex.b64Ctor "AB==".toList).toBool = false ∧
     (Lex.b64Ctor " QU JD ".toList) = .ok "QUJD".toList ∧ (Lex.hexCtor "0F 0F".toList).toBool = false ∧
-    Lex.hexCtor " 0f\n".toList = .ok "0f".toList ∧ (Lex.hexCtor [Char.ofNat 160, '0', 'F']).toBool = false := by decide
+    Lex.hexCtor " 0f\n".toList = .ok "0f".toList ∧ (Lex.hexCtor [Char.ofNat 160, '0', 'F']).toBool = false ∧
+    (Lex.hexCtor [Char.ofNat 8195, '0', 'F']).toBool = false := by decide
 
 /-- **hex codec**: decode ∘ encode = id over all octet lists (lower- and upper-case rendering). -/
 theorem hex_roundtrip (bs : List Lex.Byte) :
@@ -388,43 +386,38 @@ theorem cast_eq_constructor (ver : Lex.Ver) (s : List Char) :
 
 /-- which (operand, target) pairs `cast_eq_spec_partial` speaks about -/
 def castInScope (a : Lex.Atom) (t : Lex.Target) : Prop :=
-  (match a with
-    | .str s => noPyOnlyWhite s = true            -- F10w
-    | .untyped s => noPyOnlyWhite s = true
-    | _ => True) ∧
-  (match a, t with
-    | .dbl _ _, .string => False                  -- F10b: see `double_string_*`
-    | .dbl _ _, .untypedAtomic => False
-    | .dec _, .string => False                    -- canonical decimal strings: see `dec_canon_fixed_point`
-    | .dec _, .untypedAtomic => False
-    | .int v, .double => v.natAbs < 2 ^ 1024 - 2 ^ 970   -- F10o
-    | .int v, .float => v.natAbs < 2 ^ 1024 - 2 ^ 970
-    | _, _ => True)
+  match a, t with
+  | .dbl _ _, .string => False                  -- F10b: see `double_string_*`
+  | .dbl _ _, .untypedAtomic => False
+  | .dec _, .string => False                    -- canonical decimal strings: see `dec_canon_fixed_point`
+  | .dec _, .untypedAtomic => False
+  | _, _ => True
 
 /-- PARTIAL: **the casts of the corner follow F&O 3.1 §19** — success and value (error codes forgotten):
-strings/untypedAtomic through the lexical spaces, boolean ↔ numeric, truncation toward zero for
+strings/untypedAtomic through the lexical spaces (XSD white space), boolean ↔ numeric, truncation toward zero for
 decimal/double → integer with the facets of the derived types, exact double → decimal, exact
-integer → decimal.  Out of scope (`castInScope`): Python-only white space (F10w), double → string (F10b),
-huge integer → double (F10o), decimal → string (stated separately as `dec_canon_fixed_point`). -/
+integer → decimal, integer → double always succeeds.  Out of scope (`castInScope`): double → string (F10b) and
+decimal → string (stated separately as `dec_canon_fixed_point`, `dec_canon_is_canonical`). -/
 theorem cast_eq_spec_partial (ver : Lex.Ver) (a : Lex.Atom) (t : Lex.Target) (h : castInScope a t) :
     toSRes (Lex.cast ver a t) = XSD.castSpec (toSAtom a) (toSType ver t) := by
-  obtain ⟨hw, hs⟩ := h
+  have hs := h
+  have hwAll := noPyOnlyWhite_all
   cases t with
   | string =>
-    cases a <;> simp_all [Lex.cast, toSRes, toSVal, toSType, XSD.castSpec, toSAtom, Lex.stringValue,
+    cases a <;> simp_all [castInScope, Lex.cast, toSRes, toSVal, toSType, XSD.castSpec, toSAtom, Lex.stringValue,
       XSD.castToString, intCanon_eq]
   | untypedAtomic =>
-    cases a <;> simp_all [Lex.cast, toSRes, toSVal, toSType, XSD.castSpec, toSAtom, Lex.stringValue,
+    cases a <;> simp_all [castInScope, Lex.cast, toSRes, toSVal, toSType, XSD.castSpec, toSAtom, Lex.stringValue,
       XSD.castToString, intCanon_eq]
   | boolean =>
     cases a with
     | str s =>
       simp only [Lex.cast, toSType, XSD.castSpec, toSAtom]
-      rw [boolCtor_eq, collapse_eq_wsCollapse s hw]
+      rw [boolCtor_eq, collapse_eq_wsCollapse s (hwAll s)]
       cases XSD.booleanLex (XSD.wsCollapse s) <;> rfl
     | untyped s =>
       simp only [Lex.cast, toSType, XSD.castSpec, toSAtom]
-      rw [boolCtor_eq, collapse_eq_wsCollapse s hw]
+      rw [boolCtor_eq, collapse_eq_wsCollapse s (hwAll s)]
       cases XSD.booleanLex (XSD.wsCollapse s) <;> rfl
     | bool b => rfl
     | int v => rfl
@@ -437,14 +430,14 @@ theorem cast_eq_spec_partial (ver : Lex.Ver) (a : Lex.Atom) (t : Lex.Target) (h 
     cases a with
     | str s =>
       simp only [Lex.cast, toSType, XSD.castSpec, toSAtom]
-      rw [int_ctor_iff_lexical_partial b s hw]
+      rw [int_ctor_iff_lexical_spec b s]
       unfold specIntCtor
       simp only
       cases XSD.integerLex (XSD.wsCollapse s) <;> simp [toSRes, toSVal]
       cases XSD.inFacets b.lo (Option.map (fun x => x - 1) b.hi) (XSD.integerVal (XSD.wsCollapse s)) <;> simp [toSRes, toSVal]
     | untyped s =>
       simp only [Lex.cast, toSType, XSD.castSpec, toSAtom]
-      rw [int_ctor_iff_lexical_partial b s hw]
+      rw [int_ctor_iff_lexical_spec b s]
       unfold specIntCtor
       simp only
       cases XSD.integerLex (XSD.wsCollapse s) <;> simp [toSRes, toSVal]
@@ -468,7 +461,7 @@ theorem cast_eq_spec_partial (ver : Lex.Ver) (a : Lex.Atom) (t : Lex.Target) (h 
     cases a with
     | str s =>
       simp only [Lex.cast, toSType, XSD.castSpec, toSAtom]
-      rw [dec_ctor_iff_lexical, collapse_eq_wsCollapse s hw]
+      rw [dec_ctor_iff_lexical, collapse_eq_wsCollapse s (hwAll s)]
       cases hl : XSD.decimalLex (XSD.wsCollapse s)
       · simp [toSRes]
       · have := decOfLex_val _ hl
@@ -476,7 +469,7 @@ theorem cast_eq_spec_partial (ver : Lex.Ver) (a : Lex.Atom) (t : Lex.Target) (h 
         simp only [↓reduceIte, toSRes, toSVal, this]
     | untyped s =>
       simp only [Lex.cast, toSType, XSD.castSpec, toSAtom]
-      rw [dec_ctor_iff_lexical, collapse_eq_wsCollapse s hw]
+      rw [dec_ctor_iff_lexical, collapse_eq_wsCollapse s (hwAll s)]
       cases hl : XSD.decimalLex (XSD.wsCollapse s)
       · simp [toSRes]
       · have := decOfLex_val _ hl
@@ -497,44 +490,40 @@ theorem cast_eq_spec_partial (ver : Lex.Ver) (a : Lex.Atom) (t : Lex.Target) (h 
     cases a with
     | str s =>
       simp only [Lex.cast, toSType, XSD.castSpec, toSAtom]
-      rw [dbl_ctor_iff_lexical, collapse_eq_wsCollapse s hw]
+      rw [dbl_ctor_iff_lexical, collapse_eq_wsCollapse s (hwAll s)]
       cases XSD.doubleLex (ver != .v10) (XSD.wsCollapse s)
       · rfl
       · simp only [↓reduceIte, toSRes, toSVal, specDblClass]
         rw [specDblClass_eq]
     | untyped s =>
       simp only [Lex.cast, toSType, XSD.castSpec, toSAtom]
-      rw [dbl_ctor_iff_lexical, collapse_eq_wsCollapse s hw]
+      rw [dbl_ctor_iff_lexical, collapse_eq_wsCollapse s (hwAll s)]
       cases XSD.doubleLex (ver != .v10) (XSD.wsCollapse s)
       · rfl
       · simp only [↓reduceIte, toSRes, toSVal, specDblClass]
         rw [specDblClass_eq]
     | bool x => rfl
-    | int v =>
-      have hv : ¬ (v.natAbs ≥ 2 ^ 1024 - 2 ^ 970) := by simp only at hs; omega
-      simp only [Lex.cast, hv, ↓reduceIte]; rfl
+    | int v => rfl
     | dec d => rfl
     | dbl x r => cases x <;> rfl
   | float =>
     cases a with
     | str s =>
       simp only [Lex.cast, toSType, XSD.castSpec, toSAtom]
-      rw [dbl_ctor_iff_lexical, collapse_eq_wsCollapse s hw]
+      rw [dbl_ctor_iff_lexical, collapse_eq_wsCollapse s (hwAll s)]
       cases XSD.doubleLex (ver != .v10) (XSD.wsCollapse s)
       · rfl
       · simp only [↓reduceIte, toSRes, toSVal, specDblClass]
         rw [specDblClass_eq]
     | untyped s =>
       simp only [Lex.cast, toSType, XSD.castSpec, toSAtom]
-      rw [dbl_ctor_iff_lexical, collapse_eq_wsCollapse s hw]
+      rw [dbl_ctor_iff_lexical, collapse_eq_wsCollapse s (hwAll s)]
       cases XSD.doubleLex (ver != .v10) (XSD.wsCollapse s)
       · rfl
       · simp only [↓reduceIte, toSRes, toSVal, specDblClass]
         rw [specDblClass_eq]
     | bool x => rfl
-    | int v =>
-      have hv : ¬ (v.natAbs ≥ 2 ^ 1024 - 2 ^ 970) := by simp only at hs; omega
-      simp only [Lex.cast, hv, ↓reduceIte]; rfl
+    | int v => rfl
     | dec d => rfl
     | dbl x r => cases x <;> rfl
 
